@@ -245,6 +245,7 @@ func main() {
 		E2EKinds      map[string]int `json:"e2e_kinds"`
 		E2EError      string         `json:"e2e_error"`
 		SamplesE2E    []any          `json:"samples_e2e"`
+		E2ERefused    []e2eCaseJSON  `json:"e2e_refused"`
 	}
 	m := meta{ActionHist: map[string]int{}, RuleLenHist: map[string]int{}, ShardSize: 500}
 
@@ -400,11 +401,12 @@ func main() {
 		if *tier == "thorough" {
 			configs = 40
 		}
-		ec, ej, err := runE2E(*fwdBin, r, configs)
+		ec, ej, err := runE2E(*fwdBin, r, configs, *out)
 		if err != nil {
 			m.E2EError = err.Error()
 		}
 		m.E2ECases = len(ec)
+		m.E2ERefused = refused
 		m.E2EKinds = map[string]int{}
 		for _, j := range ej {
 			m.E2EKinds[j.(e2eCaseJSON).Kind]++
